@@ -137,12 +137,13 @@ def slice {α} (l : List α) (a b : Nat) : List α := (l.drop a).take (b - a)
 
 /-! ### sizes (tscache2_size.go) -/
 
-/-- number of rows the storage stub produces for slot time `t` -/
-def rowsOf (cfg : Cfg) (t : Int) : Nat := 1 + ((t / cfg.step) % 2).toNat
+/-- number of rows the storage stub produces for slot time `t` at storage version `ver`: 0, 1 or 2 — rows appear and
+    disappear between versions. A cell with 0 rows is an empty slice in Go (`some` = the slot was written). -/
+def rowsOf (cfg : Cfg) (t : Int) (ver : Nat) : Nat := ((t / cfg.step + ver) % 3).toNat
 
 def slotSize (cfg : Cfg) : Slot → Int
   | none => cfg.col
-  | some c => cfg.col + rowsOf cfg c.t * cfg.row
+  | some c => cfg.col + rowsOf cfg c.t c.ver * cfg.row
 
 def slotsSize (cfg : Cfg) (l : List Slot) : Int := (l.map (slotSize cfg)).foldl (· + ·) 0
 
